@@ -583,7 +583,7 @@ class OpGen:
         if base == "Int":
             return rng.choice([0, 1, -7, 42, 2147483646, -2147483647])
         if base == "String":
-            return rng.choice(["", "s", "héllo", "two words"])
+            return rng.choice(["", "s", "héllo", "two words", "li\u2028ne", "nel\u0085", "ps\u2029x"])
         if base == "Boolean":
             return rng.choice([True, False])
         if base == "ID":
